@@ -14,6 +14,7 @@ import GojaModel.C04.Entry
 import GojaModel.C04.Args
 import GojaModel.C04.Templ
 import GojaModel.C04.TypedLemmas
+import GojaModel.C04.FuncLazy
 namespace GojaModel.C04
 set_option linter.unusedSimpArgs false
 set_option linter.unusedVariables false
@@ -481,6 +482,29 @@ theorem integerIndexed_length_fixed {V} [DecidableEq V] (undef : V) (c : V → V
     have := typed_index_facts (xRun undef c xh ops) o els' ht n rest
     rw [hs] at this
     exact this
+
+/-! ### exotic delta: the lazily created `prototype` property of ordinary functions (func.go:173-250) -/
+
+/-- Every own-property lookup, define and delete on a function whose `prototype` slot is not yet materialised gives the
+same answers as on the function that has had `prototype` from the start — the property LISTS are equal up to the position
+of `prototype` among the string keys (`Perm`), which is where the mechanism deviates (next theorem). -/
+theorem lazyPrototype_refines_up_to_key_position {V} [DecidableEq V] (undef : V) (protoProp : Stored V) (f : FuncLazy V)
+    (hwf : f.WF) (k : Key) (d : Desc V) :
+    (f.getOwn protoProp k).1 = lookup (f.eager protoProp) k
+    ∧ (f.getOwn protoProp k).2.WF ∧ (f.getOwn protoProp k).2.eager protoProp = f.eager protoProp
+    ∧ ((f.define undef protoProp k d).2 = (defineOwn undef (lookup (f.eager protoProp) k) d f.ext).isSome)
+    ∧ (∀ v, defineOwn undef (lookup (f.eager protoProp) k) d f.ext = some v →
+         ((f.define undef protoProp k d).1.eager protoProp).Perm (put (f.eager protoProp) k v)
+         ∧ ∀ k', lookup ((f.define undef protoProp k d).1.eager protoProp) k' = lookup (put (f.eager protoProp) k v) k') :=
+  funcLazy_refines undef protoProp f hwf k d
+
+/-- WITNESS (current code): `f = function(){}; f.x = 1` — the mechanism's key order is `length, name, x, prototype`, the
+spec's (and the mechanism's own, had `prototype` been touched first) is `length, name, prototype, x`. -/
+theorem lazyPrototype_position_witness :
+    let f : FuncLazy Nat := { props := [(.str "length", .plain 0), (.str "name", .plain 0)], mat := false, ext := true }
+    keysOf ((f.define 0 (.plain 9) (.str "x") (descFull 1)).1.eager (.plain 9)) ≠
+      keysOf (put (f.eager (.plain 9)) (.str "x") (.plain 1)) := by
+  decide
 
 /-! ### the same answer through syntax, Object.*/Reflect.* and the Go API, for an index key spelled as integer or string -/
 
